@@ -119,6 +119,13 @@ CHECKS["C10"] = (
     "5.C10",
 )
 
+CHECKS["C16"] = (
+    "CrossHair symbolic execution of the capability gates with a symbolic environment value (os.environ stubbed) and selector families for key smuggling / nesting / allowed paths; every dangerous operation (subprocess, open, requests, importlib exec, realpath) is replaced by a recording stub",
+    "Gate functions of file/http/command placeholder and template items on every ASCII environment string of length <= 4 (symbolic) x caller flag; 10 item kinds (flat, nested in 'nest', template post-processing, template finalizer nested 0..3 levels) x 5 key-injection variants x 4 truthy values x caller opt-in x 12 environment values: a stub is reached only with caller opt-in or env in {1,true}, else SigmaSecurityError, capability flags never come from the document; allowed-path containment for vars files incl. prefix-sharing siblings, '..', symlink escapes (realpath stub) and nested finalizers / source_path default.",
+    TB + " The stubs stand in for Python audit events (not observable symbolically).",
+    "5.C16",
+)
+
 NOT_APPLICABLE = {}
 
 ALL = [f"C{n:02d}" for n in range(1, 21)]
